@@ -192,14 +192,19 @@ pub struct MachineCfg {
     /// yield a thread is never offered a store it had already seen before the yield once a
     /// modification-order-later store exists (loom's progress heuristic, applied to every load)
     pub yield_prunes_seen: bool,
+    /// loom's scheduling of `yield_now` (attribution only): a thread that yielded in a spin loop
+    /// is resumed only when no other thread can run. Outcomes are lost to this rule only in
+    /// combination with the execution-order dependent deviations above, so the deviation machines
+    /// use it and the plain MUST machine does not.
+    pub spinner_resumes_last: bool,
 }
 
 impl MachineCfg {
     pub fn must() -> MachineCfg {
-        MachineCfg { reading: Reading::Must, dev: Deviation::default(), sc_atomics: false, rmw_reads_mo_max_only: false, switch_only_at_branch_points: true, regions_atomic: false, sc_load_skips_overwritten_sc_store: false, yield_prunes_seen: false }
+        MachineCfg { reading: Reading::Must, dev: Deviation::default(), sc_atomics: false, rmw_reads_mo_max_only: false, switch_only_at_branch_points: true, regions_atomic: false, sc_load_skips_overwritten_sc_store: false, yield_prunes_seen: false, spinner_resumes_last: false }
     }
     pub fn may() -> MachineCfg {
-        MachineCfg { reading: Reading::May, dev: Deviation::default(), sc_atomics: false, rmw_reads_mo_max_only: false, switch_only_at_branch_points: false, regions_atomic: false, sc_load_skips_overwritten_sc_store: false, yield_prunes_seen: false }
+        MachineCfg { reading: Reading::May, dev: Deviation::default(), sc_atomics: false, rmw_reads_mo_max_only: false, switch_only_at_branch_points: false, regions_atomic: false, sc_load_skips_overwritten_sc_store: false, yield_prunes_seen: false, spinner_resumes_last: false }
     }
 }
 
@@ -461,9 +466,35 @@ impl<'p> Machine<'p> {
                 BO_CHECK => !self.read_candidates(t, a, o, None, false).is_empty(),
                 _ => true,
             },
-            Op::Await { a, o, v } | Op::AwaitY { a, o, v } => !self.read_candidates(t, a, o, Some(v), false).is_empty(),
+            Op::AwaitY { a, o, v } => !self.read_candidates(t, a, o, Some(v), false).is_empty(),
+            Op::Await { a, o, v } => {
+                if !self.guided && self.th[t].sub == 0 {
+                    // the first check: it may fail (the loop then waits) or succeed
+                    true
+                } else if !self.read_candidates(t, a, o, Some(v), false).is_empty() {
+                    if !self.guided && self.cfg.spinner_resumes_last {
+                        // loom resumes a yielded thread only when nothing else can run
+                        let mut other = false;
+                        for u in 0..self.th.len() {
+                            if u != t && !self.is_resumed_spinner(u) && self.enabled(u) {
+                                other = true;
+                                break;
+                            }
+                        }
+                        !other
+                    } else {
+                        true
+                    }
+                } else {
+                    false
+                }
+            }
             _ => true,
         }
+    }
+
+    fn is_resumed_spinner(&self, u: usize) -> bool {
+        matches!(self.cur_op(u).and_then(|o| self.effective(u, o)), Some(Op::Await { .. })) && self.th[u].sub == 1
     }
 
     /// `enabled` without the MAY-only allowances (spurious wake-ups): used to justify a deadlock
@@ -609,6 +640,11 @@ impl<'p> Machine<'p> {
         };
         let w = self.pick_read(t, a, o, false, Some(v), ch)?;
         self.do_read(t, pc, a, o, w, false);
+        if matches!(self.cur_op(t).and_then(|o| self.effective(t, o)), Some(Op::Await { .. })) {
+            // the loop had to wait (and yields after the failed check)
+            self.th[t].sub = 1;
+            self.th[t].seen_before_yield = self.th[t].seen.clone();
+        }
         Ok(())
     }
 
@@ -886,10 +922,30 @@ impl<'p> Machine<'p> {
                 self.do_read(t, pc, a, o, w, false);
                 res = Some(self.g.evs[w].wval);
             }
+            Op::Await { a, o, v } if !self.guided && self.th[t].sub == 0 => {
+                // the first check of the loop: any readable store. If it is not the awaited value
+                // the thread yields (at least once) and the op completes later with result 1
+                // ("had to wait"); further failed checks add nothing observable and are not
+                // modelled in walks.
+                let cands = self.read_candidates(t, a, o, None, false);
+                let w = cands[ch.choose(cands.len())];
+                self.do_read(t, pc, a, o, w, false);
+                if self.g.evs[w].wval == v {
+                    res = Some(0);
+                } else {
+                    self.th[t].seen_before_yield = self.th[t].seen.clone();
+                    self.th[t].sub = 1;
+                    completed = false;
+                }
+            }
             Op::Await { a, o, v } | Op::AwaitY { a, o, v } => {
                 if matches!(op, Op::AwaitY { .. }) {
                     // a definite yield
                     self.th[t].seen_before_yield = self.th[t].seen.clone();
+                } else {
+                    // did the loop have to wait?
+                    res = Some(self.th[t].sub as u64);
+                    self.th[t].sub = 0;
                 }
                 let cands = self.read_candidates(t, a, o, Some(v), false);
                 if cands.is_empty() {
